@@ -39,9 +39,26 @@ PAYLOADS = [
 ADV_ALPHABET = "ab'\"\\%_;-/* \x00’ʼ()|=1\n＇＂＼％＿；﹨﹣＊／"   # incl. compatibility forms that NFKC-normalise to metacharacters
 
 
+LONG_UNITS = ["'", "''", "%", "_", "\\", "a'", "\x00", "' OR 1=1 --", "’", "a", "\\'", "%'", "\x00'"]
+LONG_SIZES = [16, 17, 18, 32, 33, 64, 65, 129, 300, 1025]
+HUGE_SIZES = [49997, 49998, 49999, 50000, 50001, 65536]
+
+
+def long_strings():
+    """Payloads that are long along the size ladder: n repetitions of a metacharacter unit, or a
+    long harmless run that ends in a quote right at a limit engines are known to have."""
+    rep = st.tuples(st.sampled_from(LONG_UNITS), st.sampled_from(LONG_SIZES)).map(lambda p: p[0] * p[1])
+    tail = st.tuples(st.sampled_from(LONG_SIZES), st.sampled_from(["'", "''", "\\'", "%'", "' OR 1=1 --"])).map(
+        lambda p: "a" * p[0] + p[1])
+    huge = st.tuples(st.sampled_from(HUGE_SIZES), st.sampled_from(["'", "' OR 1=1 --", "''", "%"])).map(
+        lambda p: "a" * p[0] + p[1])
+    return st.one_of(rep, rep, rep, tail, tail, tail, tail, huge)
+
+
 def adv_strings():
-    return st.one_of(st.sampled_from(PAYLOADS), st.text(alphabet=ADV_ALPHABET, max_size=10),
-                     st.text(alphabet=st.characters(blacklist_categories=("Cs",), blacklist_characters="~"), max_size=6))
+    short = st.one_of(st.sampled_from(PAYLOADS), st.text(alphabet=ADV_ALPHABET, max_size=10),
+                      st.text(alphabet=st.characters(blacklist_categories=("Cs",), blacklist_characters="~"), max_size=6))
+    return st.one_of(*([short] * 14 + [long_strings()]))
 
 
 def adv_idents():
@@ -346,7 +363,12 @@ def run_task(task, seed, acc):
     def cases(draw):
         t = draw(gen_typed.pred(task["depth"], FS))
         n = len(string_holes(t))
-        strings = [draw(adv_strings()) for _ in range(n)]
+        if n <= 12:
+            strings = [draw(adv_strings()) for _ in range(n)]
+        else:
+            # a long list of holes: a few drawn payloads at drawn positions, the rest cycling
+            pool = [draw(adv_strings()) for _ in range(5)]
+            strings = [pool[(i * 7 + i // 5) % 5] if i % 3 else "v%d" % i for i in range(n)]
         fields = None
         k = draw(st.integers(0, 5))
         if k == 1:
